@@ -33,7 +33,7 @@ def main():
     ids = args or sorted(os.listdir(os.path.join(VERIF, "seeded")))
     target = REPO
     if USE_WT:
-        target = "/tmp/seeded_wt"
+        target = f"/tmp/seeded_wt_{os.getpid()}"
         sh(["git", "-C", REPO, "worktree", "remove", "--force", target])
         r = sh(["git", "-C", REPO, "worktree", "add", "--detach", target, "HEAD"])
         if r.returncode != 0:
